@@ -1493,9 +1493,17 @@ func runC10(c *lib.Ctx) {
 		enum("exhaustive", a, c.Scale(5, 6))
 	}
 	if c.Thorough() {
-		// deeper: one of the alphabets (by seed) and the small alphabet one step further
-		enum("exhaustive-deep", alphas[int(c.Seed)%len(alphas)], 7)
+		// deeper: the small alphabet two steps further, and a seeded sample of 400 000 of the
+		// length-7 histories of one of the alphabets (by seed)
 		enum("exhaustive-deep", c10DeepAlphabet(), 8)
+		a := alphas[int(c.Seed)%len(alphas)]
+		cnt := c10EnumCount(a, 7)
+		idx := make([]int, 400000)
+		for i := range idx {
+			idx[i] = int(c.Rng.U64() % uint64(cnt))
+		}
+		fams = append(fams, c10Family{name: fmt.Sprintf("sampled:%s:len7", a.name), label: "sampled-len7:" + a.name, sweep: false,
+			count: len(idx), gen: func(i int) c10Hist { return w.instantiate(a, c10EnumDigits(a, 7, idx[i])) }})
 	} else {
 		enum("exhaustive-deep", c10DeepAlphabet(), 6)
 	}
